@@ -455,12 +455,45 @@ type unsubRule struct {
 	R *BusRoles
 }
 
-func (r *unsubRule) Inline(fn *ssa.Function) bool { return false }
+// helpers of the package are explored with their caller (the removal may live in one)
+func (r *unsubRule) Inline(fn *ssa.Function) bool { return PkgOf(fn) == PkgBus }
 
 // boolean flags (`removed`) and results of helpers are followed along the path
-func (r *unsubRule) PredOK(k string) bool { return strings.HasPrefix(k, "v:") }
+func (r *unsubRule) PredOK(k string) bool { return strings.Contains(k, "v:") }
 func (r *unsubRule) OnInstr(e *Engine, st *State, fc *FrameCtx, in ssa.Instruction) bool {
 	u, res := st.Sigma[0], st.Sigma[1]
+	// what the path knows about error cells and about the results of explored helpers:
+	// ";<frame>:<value>=<class>" entries after the two state bytes
+	tail := st.Sigma[2:]
+	get := func(key string) byte {
+		if i := strings.LastIndex(tail, ";"+key+"="); i >= 0 {
+			return tail[i+len(key)+2]
+		}
+		return '?'
+	}
+	set := func(key string, c byte) {
+		if i := strings.LastIndex(tail, ";"+key+"="); i >= 0 {
+			b := []byte(tail)
+			b[i+len(key)+2] = c
+			tail = string(b)
+			return
+		}
+		tail += ";" + key + "=" + string(c)
+	}
+	classify := func(v ssa.Value) byte {
+		if c := classifyErrAt(e, st, fc, v); c != '?' {
+			return c
+		}
+		switch x := v.(type) {
+		case *ssa.UnOp:
+			if a, ok := x.X.(*ssa.Alloc); ok && x.Op == token.MUL {
+				return get(fc.id + ":" + a.Name()) // the last store on this path
+			}
+		case *ssa.Call:
+			return get(fc.id + ":" + x.Name()) // the result of an explored helper
+		}
+		return '?'
+	}
 	switch x := in.(type) {
 	case *ssa.MapUpdate:
 		if _, ok := r.R.isRegistryMapLoad(x.Map); ok && u < '2' {
@@ -468,23 +501,19 @@ func (r *unsubRule) OnInstr(e *Engine, st *State, fc *FrameCtx, in ssa.Instructi
 		}
 	case *ssa.Store:
 		if a, ok := x.Addr.(*ssa.Alloc); ok && typeName(a.Type()) == "error" {
-			res = classifyErr(e, x.Val)
+			set(fc.id+":"+a.Name(), classify(x.Val))
 		}
 	case *ssa.Return:
-		if len(x.Results) == 1 {
-			v := x.Results[0]
-			if ld, ok := v.(*ssa.UnOp); ok && ld.Op == token.MUL {
-				if _, ok := ld.X.(*ssa.Alloc); ok {
-					// named result: keep the last store
-				} else {
-					res = '?'
-				}
-			} else {
-				res = classifyErr(e, v)
+		if len(x.Results) == 1 && typeName(x.Results[0].Type()) == "error" {
+			c := classify(x.Results[0])
+			if call, ok := fc.site.(*ssa.Call); ok && fc.parent != nil {
+				set(fc.parent.id+":"+call.Name(), c)
+			} else if fc.parent == nil {
+				res = c
 			}
 		}
 	}
-	st.Sigma = string([]byte{u, res})
+	st.Sigma = string([]byte{u, res}) + tail
 	return false
 }
 
